@@ -89,10 +89,20 @@ type source struct {
 	ch    chan blockntfns.BlockNtfn
 	calls atomic.Int64 // Notifications() invocations = handler select entries
 
-	mu       sync.Mutex
-	backlog  []ev
-	fail     bool
-	lastSeen uint32
+	mu sync.Mutex
+	// lookup computes the backlog from the source's state AT THE TIME OF THE
+	// CALL (it runs inside NotificationsSinceHeight, before the gate).
+	lookup func(h uint32) []ev
+	fail   bool
+	// gate, when non-nil, parks the (single) next NotificationsSinceHeight call
+	// after it has taken its snapshot: parked is closed on entry, the call
+	// returns when gate is closed.
+	gate   chan struct{}
+	parked chan struct{}
+
+	lastSeen    uint32
+	lastBacklog []ev
+	lookups     int
 }
 
 func (s *source) Notifications() <-chan blockntfns.BlockNtfn {
@@ -102,13 +112,26 @@ func (s *source) Notifications() <-chan blockntfns.BlockNtfn {
 
 func (s *source) NotificationsSinceHeight(h uint32) ([]blockntfns.BlockNtfn, uint32, error) {
 	s.mu.Lock()
-	defer s.mu.Unlock()
 	s.lastSeen = h
-	if s.fail {
+	s.lookups++
+	fail := s.fail
+	var bl []ev
+	if !fail && s.lookup != nil {
+		bl = s.lookup(h) // snapshot: the source's state at lookup time
+	}
+	s.lastBacklog = bl
+	gate, parked := s.gate, s.parked
+	s.gate, s.parked = nil, nil
+	s.mu.Unlock()
+	if gate != nil {
+		close(parked)
+		<-gate
+	}
+	if fail {
 		return nil, 0, fmt.Errorf("scripted backlog failure")
 	}
-	out := make([]blockntfns.BlockNtfn, len(s.backlog))
-	for i, e := range s.backlog {
+	out := make([]blockntfns.BlockNtfn, len(bl))
+	for i, e := range bl {
 		out[i] = e.ntfn()
 	}
 	return out, h + uint32(len(out)), nil
@@ -157,6 +180,25 @@ type world struct {
 	tip      uint32
 	stalled  bool
 	det      bool
+
+	// an open registration window (subbegin ... subend)
+	win *window
+}
+
+// window: NewSubscription is running in a goroutine and is parked inside the
+// source's backlog lookup.  Notifications emitted meanwhile are handed, in
+// order, to one pump goroutine that sends them on the source channel.
+type window struct {
+	sub    *subscriber
+	h      uint32
+	bl     []ev
+	gate   chan struct{}
+	res    chan string // NewSubscription's outcome: "", "stopped", "err", "PANIC ..."
+	s      *blockntfns.Subscription
+	pumpCh chan ev
+	sent   atomic.Int64
+	queued int
+	quit   chan struct{}
 }
 
 func newWorld(o *out, tip uint32, det bool) *world {
@@ -259,20 +301,20 @@ func (w *world) backlogFrom(h uint32) []ev {
 	return bl
 }
 
-// subscribe performs NewSubscription(h) with the scripted backlog.
+// subscribe performs NewSubscription(h); the backlog is what the source
+// computed from its state when the manager called NotificationsSinceHeight.
 func (w *world) subscribe(h uint32, fail bool) *subscriber {
 	id := len(w.subs) + 1
-	var bl []ev
-	if !fail {
-		bl = w.backlogFrom(h)
-	}
 	w.src.mu.Lock()
-	w.src.backlog, w.src.fail, w.src.lastSeen = bl, fail, 1<<31
+	w.src.lookup, w.src.fail, w.src.lastSeen, w.src.lastBacklog = w.backlogFrom, fail, 1<<31, nil
 	w.src.mu.Unlock()
 	var sub *blockntfns.Subscription
 	var err error
 	g := guard(func() { sub, err = w.m.NewSubscription(h) })
 	s := &subscriber{id: id}
+	w.src.mu.Lock()
+	seen, bl := w.src.lastSeen, w.src.lastBacklog
+	w.src.mu.Unlock()
 	opText := fmt.Sprintf("sub %d %d %s", id, h, evList(bl))
 	if fail {
 		opText = fmt.Sprintf("subfail %d %d", id, h)
@@ -289,9 +331,6 @@ func (w *world) subscribe(h uint32, fail bool) *subscriber {
 		w.o.hit("sub.err")
 		w.expCalls++
 	default:
-		w.src.mu.Lock()
-		seen := w.src.lastSeen
-		w.src.mu.Unlock()
 		w.o.op(opText, fmt.Sprintf("ok %d", seen))
 		w.expCalls++
 		s.s, s.pending = sub, len(bl)
@@ -308,6 +347,163 @@ func (w *world) subscribe(h uint32, fail bool) *subscriber {
 		w.quiesce(s)
 	}
 	return s
+}
+
+// subBegin calls NewSubscription(h) in a goroutine with the source's gate held
+// and waits until the call is parked inside the backlog lookup (the snapshot
+// has been taken).  Only emitWindow, read, len and subEnd may follow until the
+// window is closed: on the code under test the handler goroutine itself is
+// parked, so Cancel/Stop/NewSubscription would block.
+func (w *world) subBegin(h uint32) bool {
+	id := len(w.subs) + 1
+	win := &window{h: h, gate: make(chan struct{}), res: make(chan string, 1),
+		pumpCh: make(chan ev, 4096), quit: make(chan struct{})}
+	parked := make(chan struct{})
+	w.src.mu.Lock()
+	w.src.lookup, w.src.fail, w.src.lastSeen, w.src.lastBacklog = w.backlogFrom, false, 1<<31, nil
+	w.src.gate, w.src.parked = win.gate, parked
+	w.src.mu.Unlock()
+	go func() {
+		defer func() {
+			if r := recover(); r != nil {
+				win.res <- fmt.Sprintf("PANIC %v", r)
+			}
+		}()
+		sub, err := w.m.NewSubscription(h)
+		switch {
+		case err == blockntfns.ErrSubscriptionManagerStopped:
+			win.res <- "stopped"
+		case err != nil:
+			win.res <- "err"
+		default:
+			win.s = sub
+			win.res <- ""
+		}
+	}()
+	// the pump: sends the window's notifications on the source channel, in order
+	go func() {
+		for {
+			select {
+			case e, ok := <-win.pumpCh:
+				if !ok {
+					return
+				}
+				select {
+				case w.src.ch <- e.ntfn():
+					win.sent.Add(1)
+				case <-win.quit:
+					return
+				}
+			case <-win.quit:
+				return
+			}
+		}
+	}()
+	win.sub = &subscriber{id: id}
+	w.subs = append(w.subs, win.sub)
+	select {
+	case <-parked:
+		w.src.mu.Lock()
+		win.bl = w.src.lastBacklog
+		w.src.mu.Unlock()
+		w.o.op(fmt.Sprintf("subbegin %d %d %s", id, h, evList(win.bl)), "parked")
+		w.o.hit("window.begin")
+		w.win = win
+		return true
+	case r := <-win.res:
+		// returned without ever consulting the source
+		w.src.mu.Lock()
+		w.src.gate, w.src.parked = nil, nil
+		w.src.mu.Unlock()
+		close(win.quit)
+		if r == "" {
+			r = "done"
+		}
+		w.o.op(fmt.Sprintf("subbegin %d %d []", id, h), r)
+		if r == "done" {
+			win.sub.s = win.s
+			w.expCalls++
+		}
+		return false
+	case <-time.After(opTimeout):
+		close(win.quit)
+		w.o.op(fmt.Sprintf("subbegin %d %d []", id, h), "HANG")
+		w.stalled = true
+		return false
+	}
+}
+
+// emitWindow: the source emits while the registration is parked.
+func (w *world) emitWindow(e ev) {
+	win := w.win
+	win.pumpCh <- e
+	win.queued++
+	if e.conn {
+		w.tip = e.height
+	} else if e.height > 0 {
+		w.tip = e.height - 1
+	}
+	w.o.op("emit "+e.String(), "queued")
+	w.o.hit("window.emit")
+}
+
+// subEnd releases the gate, waits for NewSubscription to return and for the
+// handler to have taken everything emitted during the window.
+func (w *world) subEnd() {
+	win := w.win
+	w.win = nil
+	// Give a handler goroutine that is NOT parked in the lookup (i.e. code in
+	// which the lookup does not run in the handler) the chance to take what was
+	// emitted during the window before the registration goes on: wait while the
+	// pump makes progress, give up 300us after its last progress.  On code
+	// whose handler is parked no send can complete, so this costs 300us.
+	if win.queued > 0 {
+		last, lastAt, start := win.sent.Load(), time.Now(), time.Now()
+		for int(last) < win.queued && time.Since(lastAt) < 300*time.Microsecond && time.Since(start) < 50*time.Millisecond {
+			runtime.Gosched()
+			if n := win.sent.Load(); n != last {
+				last, lastAt = n, time.Now()
+			}
+		}
+		if last > 0 {
+			w.o.hit("window.taken-before-registration")
+		}
+	}
+	close(win.gate)
+	opText := fmt.Sprintf("subend %d", win.sub.id)
+	var r string
+	select {
+	case r = <-win.res:
+	case <-time.After(opTimeout):
+		r = "HANG"
+	}
+	if r != "" {
+		w.o.op(opText, r)
+		close(win.quit)
+		w.stalled = true
+		return
+	}
+	w.src.mu.Lock()
+	seen := w.src.lastSeen
+	w.src.mu.Unlock()
+	w.o.op(opText, fmt.Sprintf("ok %d", seen))
+	if win.queued > 20 {
+		w.o.hit("window.emits>cap")
+	}
+	win.sub.s = win.s
+	if !waitFor(func() bool { return int(win.sent.Load()) == win.queued }) {
+		w.stall(fmt.Sprintf("the handler took %d of the %d notifications emitted during the registration of %d", win.sent.Load(), win.queued, win.sub.id))
+	}
+	close(win.quit)
+	w.expCalls += 1 + int64(win.queued)
+	for _, s := range w.subs {
+		if s.s != nil && !s.ended && s != win.sub {
+			s.pending += win.queued
+		}
+	}
+	win.sub.pending = len(win.bl) + win.queued
+	w.barrier()
+	w.quiesceAll()
 }
 
 // emit hands one notification to the handler goroutine.
@@ -533,6 +729,41 @@ func detCase(o *out, idx int, r *rand.Rand, thorough bool) {
 			w.emit(w.nextEv(r), true)
 		}
 	}
+	// a registration window: NewSubscription parked in the backlog lookup while
+	// the source emits (and other subscribers read)
+	window := func() {
+		h := pickHeight()
+		if h == 0 && w.tip > 0 && r.Intn(4) != 0 {
+			h = 1 + uint32(r.Intn(int(w.tip)))
+		}
+		if !w.subBegin(h) {
+			return
+		}
+		n := r.Intn(4)
+		if r.Intn(8) == 0 {
+			n = 18 + r.Intn(30)
+		}
+		for i := 0; i < n; i++ {
+			w.emitWindow(w.nextEv(r))
+			if r.Intn(3) == 0 {
+				var others []*subscriber
+				for _, s := range w.liveSubs() {
+					if !(profile == "stall" && s.id == 1) {
+						others = append(others, s)
+					}
+				}
+				if len(others) > 0 {
+					s := others[r.Intn(len(others))]
+					if s.pending > 0 && !s.ended && r.Intn(2) == 0 {
+						w.read(s, 1+r.Intn(s.pending))
+					} else {
+						w.o.op(fmt.Sprintf("len %d", s.id), strconv.Itoa(len(s.s.Notifications)))
+					}
+				}
+			}
+		}
+		w.subEnd()
+	}
 	switch profile {
 	case "stall":
 		// subscriber 1 never reads while more than channel+queue-buffer+1 notifications arrive
@@ -552,8 +783,10 @@ func detCase(o *out, idx int, r *rand.Rand, thorough bool) {
 		}
 		x := r.Intn(100)
 		switch {
-		case x < 8 && len(w.subs) < maxSubs+2:
+		case x < 5 && len(w.subs) < maxSubs+2:
 			w.subscribe(pickHeight(), r.Intn(8) == 0)
+		case x < 10 && len(w.subs) < maxSubs+3 && !w.stopped:
+			window()
 		case x < 38:
 			if w.stopped && r.Intn(8) != 0 {
 				continue
@@ -597,9 +830,14 @@ func detCase(o *out, idx int, r *rand.Rand, thorough bool) {
 			w.stop()
 		}
 	}
-	// final: stop and read every channel to its end.  If a quiescence wait
-	// failed, first ask every live subscriber for what it is owed, so that the
-	// trace shows what is missing.
+	w.finish(profile == "stall")
+}
+
+// finish: stop and read every channel to its end.  If a quiescence wait failed,
+// first ask every live subscriber for what it is owed, so that the trace shows
+// what is missing.
+func (w *world) finish(firstStalls bool) {
+	o := w.o
 	if w.stalled {
 		stalledCases++
 		o.hit("case.stalled")
@@ -611,7 +849,7 @@ func detCase(o *out, idx int, r *rand.Rand, thorough bool) {
 	}
 	w.stop()
 	for _, s := range w.liveSubs() {
-		if profile == "stall" && s.id == 1 {
+		if firstStalls && s.id == 1 {
 			o.hit("final.stalled-sub")
 		}
 		w.read(s, 1000)
@@ -619,6 +857,126 @@ func detCase(o *out, idx int, r *rand.Rand, thorough bool) {
 }
 
 var stalledCases int
+
+// ---------------------------------------------------------------------------
+// deterministic probes: fixed scenarios, run first on every run
+
+var probeNames = []string{"window-basic", "window-many", "window-empty-backlog", "window-reorg",
+	"window-two", "stall-beyond-buffers", "cancel-during-backlog", "stop-pending"}
+
+func probeCase(o *out, idx int) {
+	name := probeNames[idx]
+	tip := map[string]uint32{"window-basic": 5, "window-many": 30, "window-empty-backlog": 4, "window-reorg": 6,
+		"window-two": 9, "stall-beyond-buffers": 0, "cancel-during-backlog": 50, "stop-pending": 3}[name]
+	o.line("case %d det probe-%s tip %d", idx, name, tip)
+	o.hit("probe." + name)
+	w := newWorld(o, tip, true)
+	conn := func(n int) {
+		for i := 0; i < n && !w.stalled; i++ {
+			w.emit(w.fresh(true, w.tip+1), true)
+		}
+	}
+	connWin := func(n int) {
+		for i := 0; i < n; i++ {
+			w.emitWindow(w.fresh(true, w.tip+1))
+		}
+	}
+	switch name {
+	case "window-basic":
+		// one notification is emitted while subscriber 2 (start height 2) is mid-registration
+		s1 := w.subscribe(0, false)
+		if w.subBegin(2) {
+			connWin(1)
+			w.subEnd()
+		}
+		s2 := w.subs[1]
+		if s2.s != nil && !w.stalled {
+			w.read(s2, 4) // c3 c4 c5 (backlog) then c6 (emitted during the window)
+			conn(1)
+			w.read(s2, 1)
+			w.read(s1, 2)
+		}
+	case "window-many":
+		// backlog and window both larger than the channel; subscriber 1 never reads
+		w.subscribe(0, false)
+		conn(3)
+		if w.subBegin(5) {
+			connWin(25)
+			w.subEnd()
+		}
+		s2 := w.subs[1]
+		if s2.s != nil && !w.stalled {
+			w.o.op("len 2", strconv.Itoa(len(s2.s.Notifications)))
+			w.read(s2, 40)
+			conn(2)
+			w.read(s2, s2.pending)
+			w.cancel(s2)
+		}
+	case "window-empty-backlog":
+		if w.subBegin(4) {
+			connWin(2)
+			w.subEnd()
+		}
+		s1 := w.subs[0]
+		if s1.s != nil && !w.stalled {
+			w.read(s1, 2)
+			w.poll(s1)
+		}
+	case "window-reorg":
+		w.subscribe(0, false)
+		if w.subBegin(3) {
+			w.emitWindow(w.fresh(false, 6))
+			w.emitWindow(w.fresh(true, 6))
+			w.subEnd()
+		}
+		s2 := w.subs[1]
+		if s2.s != nil && !w.stalled {
+			w.read(s2, 5)
+			w.poll(s2)
+		}
+	case "window-two":
+		// two registrations with windows one after the other, reads of the first in the second's window
+		if w.subBegin(7) {
+			connWin(1)
+			w.subEnd()
+		}
+		s1 := w.subs[0]
+		if s1.s != nil && !w.stalled && w.subBegin(8) {
+			connWin(1)
+			w.read(s1, 2)
+			connWin(1)
+			w.subEnd()
+			s2 := w.subs[1]
+			if s2.s != nil && !w.stalled {
+				w.read(s2, s2.pending)
+				w.read(s1, s1.pending)
+			}
+		}
+	case "stall-beyond-buffers":
+		// more undelivered notifications than channel (20) + forwarder (1) + queue buffer (20)
+		s1 := w.subscribe(0, false)
+		conn(60)
+		s2 := w.subscribe(30, false)
+		conn(5)
+		if !w.stalled {
+			w.read(s2, s2.pending)
+			w.o.op("len 1", strconv.Itoa(len(s1.s.Notifications)))
+			w.read(s1, 65)
+		}
+	case "cancel-during-backlog":
+		s1 := w.subscribe(5, false)
+		if s1.s != nil && !w.stalled {
+			w.read(s1, 3)
+			w.cancel(s1)
+			conn(2)
+		}
+	case "stop-pending":
+		w.subscribe(1, false)
+		w.subscribe(0, false)
+		conn(30)
+	}
+	w.finish(false)
+}
 
 // ---------------------------------------------------------------------------
 // free cases
@@ -846,6 +1204,8 @@ func child(_ *tr.W, thorough bool) {
 		r := caseRng(idx)
 		if idx >= tr.EnvInt("SUBS_N", 1<<30) {
 			stopRaceCase(o, idx, r)
+		} else if idx < len(probeNames) {
+			probeCase(o, idx)
 		} else if idx%3 == 2 {
 			freeCase(o, idx, r, thorough)
 		} else {
